@@ -1,5 +1,6 @@
 """C07: reproducible output (E-FX ambient frame over Python and Jinja ASTs)."""
 import ast
+import typing
 import hashlib
 import os
 import pathlib
@@ -140,6 +141,72 @@ def main():
                     repro = bool(w.get("differing_files"))
                     run.fail(report.Failure(name, "frame", f"{fn.file}:{getattr(n, 'lineno', it.lineno)}: iteration over a hash-ordered collection `{t}` on the generation path", {"witness": w}, repro))
                     run.add_check(name, False, "E-FX", 0, t)
+    # keyed sorts over possibly hash-ordered input: `sorted(X, key=K)` is a total order only if K is injective on X
+    set_attrs = set()
+    for q, fn in ix.fns.items():
+        for n in ast.walk(fn.node):
+            if isinstance(n, (ast.Assign, ast.AnnAssign)):
+                tgt = n.targets[0] if isinstance(n, ast.Assign) else n.target
+                val = n.value
+                ann = ast.unparse(n.annotation) if isinstance(n, ast.AnnAssign) else ""
+                if isinstance(tgt, ast.Attribute) and ((val is not None and re.match(r"(set|frozenset)\(", ast.unparse(val))) or re.search(r"\b(Set|FrozenSet|set|frozenset)\[", ann)):
+                    set_attrs.add(tgt.attr)
+    run.notes["hash_ordered_attributes"] = sorted(set_attrs)
+
+    def hash_ordered(e: ast.AST, tainted: typing.Set[str]) -> bool:
+        for x in ast.walk(e):
+            if isinstance(x, ast.Call) and ast.unparse(x.func) == "sorted" and not any(k.arg == "key" for k in x.keywords):
+                continue
+            if isinstance(x, (ast.Set, ast.SetComp)):
+                return True
+            if isinstance(x, ast.Call) and ast.unparse(x.func) in ("set", "frozenset"):
+                return True
+            if isinstance(x, ast.Attribute) and x.attr in set_attrs:
+                return True
+            if isinstance(x, ast.Name) and x.id in tainted:
+                return True
+        return False
+
+    for q, fn in sorted(ix.fns.items()):
+        if fn.module.startswith("nunavut.cli"):
+            continue
+        node = fn.node
+        tainted = {a.arg for a in node.args.args + node.args.kwonlyargs if a.arg not in ("self", "cls")}  # callers may hand in any iterable
+        for _ in range(3):  # assignments propagate (small fixpoint)
+            for n in ast.walk(node):
+                if isinstance(n, ast.Assign) and hash_ordered(n.value, tainted) and not (isinstance(n.value, ast.Call) and ast.unparse(n.value.func) == "sorted" and not any(k.arg == "key" for k in n.value.keywords)):
+                    for t_ in n.targets:
+                        if isinstance(t_, ast.Name):
+                            tainted.add(t_.id)
+                if isinstance(n, ast.AugAssign) and isinstance(n.target, ast.Name) and hash_ordered(n.value, tainted):
+                    tainted.add(n.target.id)
+        for n in ast.walk(node):
+            if not isinstance(n, ast.Call):
+                continue
+            f = ast.unparse(n.func)
+            keyk = next((k for k in n.keywords if k.arg == "key"), None)
+            if keyk is None:
+                continue
+            if f in ("sorted", "min", "max") and n.args:
+                subject = n.args[0]
+            elif f.endswith(".sort") and isinstance(n.func, ast.Attribute):
+                subject = n.func.value
+            else:
+                continue
+            if not hash_ordered(subject, tainted):
+                continue
+            ktext = ast.unparse(keyk.value)
+            name = f"{q}#keyed-sort-of-possibly-hash-ordered-input-has-an-injective-key@{ktext[:40]}"
+            reason = K.INJECTIVE_SORT_KEYS.get((q, ktext))
+            if reason:
+                run.add_check(name, True, "E-FX declared frame", 0, reason)
+                run.assume(f"{q}: key `{ktext}`: {reason}")
+            else:
+                w = native_two_runs("c", "hashseed")
+                repro = bool(w.get("differing_files"))
+                run.add_check(name, False, "E-FX", 0, f"{f}({ast.unparse(subject)[:40]}, key={ktext})")
+                run.fail(report.Failure(name, "frame", f"{fn.file}:{n.lineno}: `{f}(..., key={ktext})` orders `{ast.unparse(subject)[:60]}`, whose order may be hash order; ties keep that order, so the key must be injective "
+                                        "(no entry in contracts/c07_fx.py:INJECTIVE_SORT_KEYS justifies it)", {"witness": w}, repro))
     run.add_function(f"{len(ix.fns)} Python functions of nunavut/ (bundled Jinja2 and CLI argument/environment parsing excluded)")
     # ---- template obligation -----------------------------------------------------------------------
     n_t, n_out = 0, 0
